@@ -352,7 +352,9 @@ ParseDenotes ==   \* an accepted expression denotes the union of its items, each
 (*                                                                         *)
 (* offers: sequence of [id, host, attrs (record name -> text), cpus, mem,   *)
 (*         ports (sequence of <<b, e>>)]                                    *)
-(* descs:  sequence of [id, cpu, mem, tcp_inbound, ipc_inbound,             *)
+(* descs:  sequence of [id, cpu, mem, tcp_inbound (inbound TCP channels of  *)
+(*         the DESCRIPTOR: the template's and those its roles bind),        *)
+(*         ipc_inbound,                                                     *)
 (*         controllable, and                                                *)
 (*           constraints: sequence of [attr, value]   (already merged) or   *)
 (*           chain: sequence (farthest first) of such sequences,            *)
@@ -664,6 +666,22 @@ SharedRoundCat ==
   {[offers |-> Pick(OfferCat, oi), descs |-> ds, exec |-> Exec1] :
      oi \in {<<1, 2>>, <<2, 3>>, <<1, 2, 3>>, <<2>>, <<1>>}, ds \in SharedDescSets}
 
+\* task roles of ONE task class whose ROLE-level bind lists differ: the inbound channels of a descriptor are the template's
+\* plus those bound by its enclosing roles (role_tcp of the tcp_inbound channels come from the role named by role_bind_at);
+\* every task gets one dynamic port per inbound TCP channel of ITS descriptor, whatever its siblings bind
+BD(id, cls, tmpl, role, at) ==
+  [id |-> id, class |-> cls, chain |-> << <<>>, <<>>, <<>> >>, cpu |-> 100, mem |-> 32, static_expr |-> "",
+   tcp_inbound |-> tmpl + role, role_tcp |-> role, role_bind_at |-> at, ipc_inbound |-> 0, controllable |-> TRUE]
+BindDescSets ==
+  { << BD("b1", "kD", 1, 0, "task"), BD("b2", "kD", 1, 1, "task") >>,
+    << BD("b3", "kE", 1, 1, "task"), BD("b4", "kE", 1, 0, "task") >>,
+    << BD("b5", "kF", 0, 2, "group"), BD("b6", "kF", 0, 0, "task"), BD("b7", "kF", 0, 1, "task") >> }
+BindOffers ==
+  << [id |-> "oP", host |-> "hP", attrs |-> [machine_id |-> "hP"], cpus |-> 4000, mem |-> 2048, ports |-> <<<<9000, 9009>>, <<30000, 30009>>>>],
+     [id |-> "oQ", host |-> "hQ", attrs |-> [machine_id |-> "hQ"], cpus |-> 4000, mem |-> 2048, ports |-> <<<<9000, 9009>>, <<30000, 30009>>>>] >>
+BindRoundCat ==
+  {[offers |-> Pick(BindOffers, oi), descs |-> ds, exec |-> Exec1] : oi \in {<<1>>, <<1, 2>>}, ds \in BindDescSets}
+
 \* offers whose ports lie entirely or partly at or above the control-port threshold: only high ports (the stock Mesos
 \* range), fewer low ports than a task has TCP channels, low + high; controllable tasks with 1..3 inbound TCP
 \* channels, alone and several on one offer: dynamic ports then come from >= 30000 too and must stay distinct from the
@@ -716,7 +734,7 @@ RoundCat ==
      e \in IF Thorough THEN {NoExec, Exec1} ELSE {Exec1}}
 
 RoundInit == /\ c = NoCase
-             /\ \E x \in RoundCat \cup SharedRoundCat \cup PortRoundCat \cup HoleRoundCat \cup HistoryRoundCat : rd = RoundStart(x.offers, x.descs, x.exec)
+             /\ \E x \in RoundCat \cup SharedRoundCat \cup PortRoundCat \cup HoleRoundCat \cup HistoryRoundCat \cup BindRoundCat : rd = RoundStart(x.offers, x.descs, x.exec)
 RoundNext == ((\E oid \in Ids(rd.offers) : ProcessOffer(oid)) \/ Finish) /\ UNCHANGED c
 RoundSpec == RoundInit /\ [][RoundNext]_<<c, rd>>
 
